@@ -685,7 +685,8 @@ def run_case(case):
         # the C15 harness (fake TLS layer, real certificates) drives sessions to 'established'; here only the types of what the
         # endpoint then reports over the bus are judged
         from vf.props import c15
-        obs15 = dict(rows=0, tls_attempted=0, established_secure=0, contact_failures=0, policy_closures=0)
+        import collections
+        obs15 = collections.defaultdict(int)
         for naming in ('passive', 'active-addr', 'active-dns'):
             for (ip, dns, uri) in (('match', 'absent', 'match'), ('match', 'match', 'match'), ('absent', 'match', 'absent'), ('both', 'both', 'both'),
                                    ('absent', 'absent', 'match'), ('match', 'absent', 'absent')):
